@@ -3,9 +3,9 @@
 package cl
 
 import (
+	"unicode"
+
 	"github.com/ohler55/slip"
-	"golang.org/x/text/cases"
-	"golang.org/x/text/language"
 )
 
 func init() {
@@ -15,7 +15,7 @@ func init() {
 				stringModify: stringModify{
 					Function: slip.Function{Name: "string-capitalize", Args: args},
 					modify: func(str string) string {
-						return cases.Title(language.Und).String(str)
+						return capitalize(str)
 					},
 				},
 			}
@@ -38,4 +38,24 @@ are considered as non-punctuation unless they are actually punctuation.`,
 // StringCapitalize represents the string-capitalize function.
 type StringCapitalize struct {
 	stringModify
+}
+
+// capitalize returns str with the first character of each word in upper case
+// and the rest of the word in lower case. A word is a run of letters and
+// digits, any other character is a word delimiter.
+func capitalize(str string) string {
+	rs := []rune(str)
+	var inWord bool
+	for i, r := range rs {
+		switch {
+		case !unicode.IsLetter(r) && !unicode.IsDigit(r):
+			inWord = false
+		case inWord:
+			rs[i] = unicode.ToLower(r)
+		default:
+			rs[i] = unicode.ToUpper(r)
+			inWord = true
+		}
+	}
+	return string(rs)
 }
